@@ -1151,6 +1151,12 @@ func (fr *frame) loopTrans(li *loopInfo, st *state, phiVals map[*ssa.Phi]string)
 			tr.vars[p.Name()] = tvar{fr.val(p), vtype{c.sortOf(p.Type()), p.Type()}}
 		}
 	}
+	// NAME0: the entry value of parameter NAME (the plain name denotes the current value where the parameter is assigned to)
+	for _, p := range fr.fn.Params {
+		if _, clash := tr.vars[p.Name()+"0"]; !clash {
+			tr.vars[p.Name()+"0"] = tvar{fr.val(p), vtype{c.sortOf(p.Type()), p.Type()}}
+		}
+	}
 	// named values dominating the header
 	for name, refs := range fr.debug {
 		var best *ssa.DebugRef
